@@ -11,6 +11,7 @@ import (
 	zz "github.com/bufbuild/protocompile/internal/zzverif"
 	"github.com/bufbuild/protocompile/linker"
 	"github.com/bufbuild/protocompile/parser"
+	"github.com/bufbuild/protocompile/reporter"
 )
 
 type zzC05Plan struct {
@@ -64,16 +65,19 @@ func zzLinkOnly(t *task, parseRes parser.Result, deps linker.Files, override lin
 
 type zzC05Out struct {
 	ok    bool
+	warns int // warnings delivered to the reporter (unused imports of requested files)
 	n     int
 	types [3]string
 }
 
 func zzC05Compile(p zzC05Plan, par int, req []string) zzC05Out {
 	zzGraphFiles = p.files()
-	c := &Compiler{Resolver: zzGraphResolver{}, MaxParallelism: par}
+	warns := 0
+	rep := reporter.NewReporter(func(err reporter.ErrorWithPos) error { return err }, func(reporter.ErrorWithPos) { warns++ })
+	c := &Compiler{Resolver: zzGraphResolver{}, MaxParallelism: par, Reporter: rep}
 	fs, err := c.Compile(context.Background(), req...)
 	zz.Quiesce()
-	out := zzC05Out{ok: err == nil}
+	out := zzC05Out{ok: err == nil, warns: warns}
 	if err == nil {
 		out.n = len(fs)
 		for i, f := range fs {
@@ -124,6 +128,7 @@ func HarnessC05() {
 	zz.Assert(got.ok == want.ok, "C05/success-verdict-independent-of-parallelism-order-schedule")
 	if got.ok && want.ok {
 		zz.Assert(got.n == want.n && got.types == want.types, "C05/resolved-descriptors-independent-of-parallelism-order-schedule")
+		zz.Assert(got.warns == want.warns, "C05/warnings-independent-of-parallelism-order-schedule")
 		zz.Reach("C05/both-succeeded")
 	}
 	zz.Reach("C05/compared")
